@@ -467,6 +467,12 @@ func ext۰reflect۰Value۰MapIndex(fr *frame, args []value) value {
 	if kt := rV2T(args[1]).t; !types.AssignableTo(kt, mt.Key()) {
 		panic(runtimeError(fmt.Sprintf("reflect.Value.MapIndex: value of type %s is not assignable to type %s", kt, mt.Key())))
 	}
+	// an interface-keyed map stores its keys boxed with their dynamic type
+	if _, isIface := mt.Key().Underlying().(*types.Interface); isIface {
+		if _, boxed := k.(iface); !boxed {
+			k = iface{rV2T(args[1]).t, k}
+		}
+	}
 	switch m := rV2V(args[0]).(type) {
 	case *smap:
 		if v, ok := m.lookup(fr.i, k); ok {
